@@ -168,6 +168,9 @@ class Database(ImpExp):
                             self.db.__delitem__(_key)
                         else:
                             return
+                    else:
+                        # nothing below this node was removed: leave it and its superiors alone
+                        return
                 else:
                     if isinstance(_node, NodeInfo) and _node.subordinate:
                         for _s in _node.subordinate:
